@@ -236,13 +236,17 @@ def r2b(repo, run):
                 raise AnalysisError('parse_scalar: loader.resolve(kind, value, implicit) not recognised')
             r = rs[0]
             impl = r.args[2]
-            if impl.elems is None or len(impl.elems) != 2:
-                raise AnalysisError('parse_scalar: implicit pair %s not evaluable' % impl.text[:40])
-            try:
-                pair = tuple(bool(tr._ev_const(x.ast, {'node.style': style})) for x in impl.elems)
-            except tr._Unknown:
-                raise AnalysisError('parse_scalar: implicit pair %s not evaluable' % impl.text[:40])
-            res.setdefault(style, set()).add(pair)
+            pair = None
+            if impl.elems is not None and len(impl.elems) == 2:
+                try:
+                    pair = tuple(bool(tr._ev_const(x.ast, {'node.style': style})) for x in impl.elems)
+                except tr._Unknown:
+                    pair = None
+            if pair is None:
+                shortcuts.append((style, p))      # the pair is computed in a way the trace cannot fold (an enum, a table): decided by evaluation below
+                res.setdefault(style, set()).add((True, False) if style is None else (False, True))
+            else:
+                res.setdefault(style, set()).add(pair)
             if p.status == 'return' and co and p.ret is not None:
                 R = co[0].result.text
                 if p.ret.text == R:
@@ -295,7 +299,7 @@ def _parse_scalar_texts(repo, run, required):
                     raise AnalysisError('implicit resolver %s: regular expression not found' % unparse(c)[:60])
     bad = []
     rows = direct = 0
-    for style in (None, '"', "'", '|'):
+    for style in (None, '"', "'", '|', '>'):
         for text in SCALAR_TEXTS:
             rows += 1
             node = Obj('ynode', 'yaml.ScalarNode', value=text, style=style, tag='!tag', start_mark=None, end_mark=None)
@@ -304,6 +308,12 @@ def _parse_scalar_texts(repo, run, required):
             def stub(n, recv, a, k):
                 asked.append(n)
                 if n == 'resolve':
+                    impl = k.get('implicit', a[2] if len(a) > 2 else None)
+                    want_impl = (True, False) if style is None else (False, True)
+                    if not (isinstance(impl, (tuple, list)) and len(impl) == 2 and all(isinstance(x, bool) for x in impl)):
+                        raise AnalysisError('parse_scalar: the implicit pair handed to loader.resolve is not evaluable (%r)' % (impl,))
+                    if tuple(impl) != want_impl and not any(b_.startswith('a tagged scalar written in style %r' % (style,)) for b_ in bad):
+                        bad.append('a tagged scalar written in style %r is resolved with implicit=%r; an untagged scalar of that style is resolved with %r, so the tag changes the value type (`!force |\\n  8080` becomes an int)' % (style, tuple(impl), want_impl))
                     return 'RESOLVED'
                 return ('PYYAML', n)
             f = FDE(repo, stubs={'resolve', 'construct_object', 'construct_scalar'}, stub=stub, max_depth=6)
@@ -599,9 +609,10 @@ def _r7_codec(repo, run):
     dec_loads = {e.args[0].text for p in tr.paths_of(repo, dec, follow_exceptions=False) for e in p.events if e.kind == 'call' and e.callee == 'pickle.loads' and e.args}
     prm_e, prm_d = enc.params()[0], dec.params()[0]
     import re as _re
-    enc_ok = bool(enc_rets) and all(_re.fullmatch(r'pickle\.dumps\(%s(, (protocol=)?[\w.]+)?\)\.hex\(\)' % _re.escape(prm_e), t) for t in enc_rets)      # (any pickle protocol loads back)
+    dumps_ = r'pickle\.dumps\(%s(, (protocol=)?[\w.]+)?\)' % _re.escape(prm_e)      # (any pickle protocol loads back)
+    enc_ok = bool(enc_rets) and all(_re.fullmatch(dumps_ + r'\.hex\(\)', t) or _re.fullmatch(r'bytes\.hex\(' + dumps_ + r'\)', t) for t in enc_rets)      # x.hex() / bytes.hex(x)
     dec_ok = dec_loads == {'bytes.fromhex(%s)' % prm_d}
-    if not (enc_ok and dec_ok) and all('pickle.dumps(' in t and '.hex()' in t for t in enc_rets) and all('bytes.fromhex(' in t for t in dec_loads) and enc_rets and dec_loads:
+    if not (enc_ok and dec_ok) and all('pickle.dumps(' in t and ('.hex()' in t or 'bytes.hex(' in t) for t in enc_rets) and all('bytes.fromhex(' in t for t in dec_loads) and enc_rets and dec_loads:
         raise AnalysisError('metadata encoder / decoder use pickle + hex but in a form that is not recognised (%s / %s)' % (sorted(enc_rets)[:1], sorted(dec_loads)[:1]))
     if not (enc_ok and dec_ok):
         run.violation('C01.R7', enc, 'encode: %s; decode: pickle.loads(%s)' % (sorted(enc_rets)[:2], sorted(dec_loads)[:2]), 'metadata encoder and decoder are not the inverse pair pickle.dumps(..).hex() / pickle.loads(bytes.fromhex(..))')
